@@ -532,7 +532,10 @@ def run_fault(ops, chooser):
                     elif op == "stop":
                         af.stop()
                     elif op == "is_alive":
+                        _settle(sched)
+                        really = all(any(t.name.startswith(kd + " active fabric") and not t.finished for t in sched.threads) for kd in ("fifo", "lifo"))
                         res["results"].append(bool(af.is_alive()))
+                        res.setdefault("really", []).append(really)
                     else:
                         nsig += 1
                         af.subscribe(Poison(), Event(signal="P%d" % nsig), queue_type=op.split()[1])
@@ -569,6 +572,89 @@ def run_fault(ops, chooser):
     return res
 
 
+def run_subscribing_subscriber(spec, chooser):
+    """a subscribed queue object whose append() subscribes another queue (a discovery subscriber: when it hears an announcement it
+    subscribes a sink to what was announced) - a subscribe() issued from inside a delivery"""
+    res = {"errors": [], "steps": []}
+    with dsched.Installed():
+        sched = dsched.Sched(chooser, max_steps=4000, yield_filter=yield_filter)
+        dsched.Sched.current = sched
+        try:
+            af = mao.ActiveFabric()
+            sched.name_obj(af.fifo_fabric_queue, "fq")
+            sched.name_obj(af.lifo_fabric_queue, "lq")
+            sink = collections.deque(maxlen=50)
+            heard = []
+
+            class Discovery:
+                def append(self, e):
+                    heard.append(e.payload)
+                    af.subscribe(sink, Event(signal="TOPIC%d" % e.payload), queue_type=spec["sink_kind"])
+
+            def client():
+                if spec["start_first"]:
+                    af.start()
+                af.subscribe(Discovery(), Event(signal="ANNOUNCE"), queue_type=spec["disc_kind"])
+                if not spec["start_first"]:
+                    af.start()
+                for k in range(spec["announcements"]):
+                    af.publish(Event(signal="ANNOUNCE", payload=k))
+                _settle(sched)
+                res["steps"].append("announced")
+                for k in range(spec["announcements"]):
+                    af.publish(Event(signal="TOPIC%d" % k, payload=100 + k))
+                _settle(sched)
+                res["steps"].append("published")
+                af.stop()
+                res["steps"].append("stopped")
+                res["alive_after_stop"] = bool(af.is_alive())
+                if spec["restart"]:
+                    af.start()
+                    af.publish(Event(signal="TOPIC0", payload=200))
+                    _settle(sched)
+                    af.stop()
+                    res["steps"].append("restarted")
+            sched.spawn(client, (), name="K0")
+            res["outcome"] = sched.run()
+            res["client_done"] = sched.threads[0].finished
+            res["live"] = [t.name for t in sched.threads[1:] if not t.finished]
+            res["heard"] = list(heard)
+            res["sink"] = sorted(e.payload for e in sink)
+            for t in sched.threads:
+                if t.error is not None:
+                    res["errors"].append("%s: %s: %s" % (t.name, type(t.error).__name__, t.error))
+            res["schedule"] = [e[0] for e in sched.trace]
+        finally:
+            sched.shutdown()
+    return res
+
+
+def explore_subscribing_subscriber(run, focus, n):
+    """C13 / C06 with a subscriber whose append() itself subscribes (oracle only): the delivery threads keep running, the nested
+    subscriptions are served, stop() returns and ends both threads, a later start() resumes delivery"""
+    rng = run.rng
+    for _ in range(n):
+        spec = {"disc_kind": rng.choice(["fifo", "lifo"]), "sink_kind": rng.choice(["fifo", "lifo"]), "start_first": rng.random() < 0.5,
+                "announcements": rng.randint(1, 3), "restart": rng.random() < 0.5}
+        seed = rng.randrange(1 << 30)
+        res = run_subscribing_subscriber(spec, dsched.random_chooser(random.Random(seed)))
+        cj = {"what": "subscribing-subscriber", "spec": spec, "seed": seed, "schedule": res.get("schedule", [])}
+        run.count("a subscriber whose append() subscribes another queue (subscribe from inside a delivery)")
+        run.traces_validated += 1
+        want_sink = [100 + k for k in range(spec["announcements"])] + ([200] if spec["restart"] else [])
+        if res["errors"]:
+            run.violate("%s/thread-error" % focus, "a subscriber that subscribes from its append(): %s" % res["errors"][:2], cj)
+        elif not res.get("client_done"):
+            run.violate("%s/call-never-returns" % focus, "a subscriber that subscribes from its append(): the client got as far as %s, then a call "
+                        "never returned (threads still alive: %s)" % (res["steps"], res["live"]), cj)
+        elif res["live"] or res.get("alive_after_stop"):
+            run.violate("C13/threads-alive-after-stop", "after stop(): threads %s alive, is_alive() = %s" % (res["live"], res.get("alive_after_stop")), cj)
+        elif res["sink"] != want_sink:
+            run.violate("%s/nested-subscription-not-served" % focus, "the subscriptions made from inside a delivery received %s, expected %s"
+                        % (res["sink"], want_sink), cj)
+        run.case(cj, nontrivial=True)
+
+
 def explore_faults(run, focus, n):
     """fault stream: delivery threads are killed by a subscriber that raises; random sequences of start / stop / is_alive /
     kill; tied to the Lean call-level model `Conc.FabFault` (family `fabfault`) and checked by implementation-side oracles"""
@@ -586,6 +672,11 @@ def explore_faults(run, focus, n):
                             % (ops, res["max_live"][kd], kd), cj)
         if res["errors"]:
             run.violate("C13/thread-error", "a thread died: %s" % res["errors"][:2], cj)
+        for k, (said, really) in enumerate(zip(res["results"], res.get("really", []))):
+            if said != really:
+                run.violate("C13/is_alive-wrong", "call sequence %s: is_alive() number %d answered %s while a fifo and a lifo delivery thread "
+                            "were %s" % (ops, k, said, "both running" if really else "not both running"), cj)
+                break
         if res["done"] < len(ops):
             run.violate("C13/call-never-returns", "call %d (%s) of %s did not return" % (res["done"], ops[res["done"]], ops), cj)
         else:
@@ -847,6 +938,50 @@ def explore_number_subscription_race(run, focus, n):
         run.case(cj, nontrivial=True)
 
 
+def same_queue_race_run(spec, chooser):
+    import small_corr, types
+    with dsched.Installed():
+        af = mao.ActiveFabricSource()
+        others = [collections.deque(maxlen=20) for _ in range(spec["others"])]
+        mine = collections.deque(maxlen=20)
+        sig = "SAMEQ_%s" % spec["tag"]
+        for q in others:
+            af.subscribe(q, Event(signal=sig), queue_type=spec["kind"])     # the signal's list exists before the race
+
+        def one():
+            af.subscribe(mine, Event(signal=sig), queue_type=spec["kind"])
+        codes = [mao.ActiveFabricSource.subscribe.__code__] + [c for c in mao.ActiveFabricSource.subscribe.__code__.co_consts
+                                                                if isinstance(c, types.CodeType)]
+        order, errors, outcome, fin = small_corr.run_threads([one] * spec["threads"], chooser, codes)
+        reg = af.fifo_subscriptions if spec["kind"] == "fifo" else af.lifo_subscriptions
+        held = list(reg.get(sig, {}).values()) if isinstance(reg.get(sig), dict) else list(reg.get(sig, []))
+        return order, errors, sum(1 for x in held if x is mine), [sum(1 for x in held if x is q) for q in others], all(fin)
+
+
+def explore_same_queue_race(run, focus, n):
+    """the SAME queue subscribed to the same signal by two or three threads at once (an active object subscribing from its own
+    handler and from outside), other queues already subscribed, every bytecode of subscribe a scheduling point (oracle only):
+    afterwards the registry holds the queue once - each later publication reaches it once"""
+    rng = run.rng
+    for _ in range(n):
+        spec = {"kind": rng.choice(["fifo", "lifo"]), "others": rng.randint(0, 2), "threads": rng.randint(2, 3),
+                "tag": "%d_%d" % (run.seed, rng.randrange(1 << 30))}
+        seed = rng.randrange(1 << 30)
+        r2 = random.Random(seed)
+        chooser = dsched.pct_chooser(r2, depth=r2.randint(1, 3), est_len=150) if r2.random() < 0.5 else dsched.random_chooser(r2)
+        order, errors, mine, others, fin = same_queue_race_run(spec, chooser)
+        cj = {"what": "same-queue-subscribe-race", "spec": spec, "seed": seed, "schedule": order}
+        run.count("one queue subscribed to one signal by several threads at once (bytecode level)")
+        run.traces_validated += 1
+        if errors or not fin:
+            run.violate("%s/subscribe-race-failed" % focus, "%d threads subscribing one queue to one signal: %s" % (spec["threads"], errors[:2] or "a call never returned"), cj)
+        elif mine != 1 or any(o != 1 for o in others):
+            run.violate("%s/subscribed-twice" % focus, "%d threads subscribed the same queue to the same signal at the same time (%d other queues subscribed "
+                        "before): the registry holds it %d times (every publication would reach it %d times), the others %s"
+                        % (spec["threads"], spec["others"], mine, mine, others), cj)
+        run.case(cj, nontrivial=True)
+
+
 def explore_many_subscribers(run, focus):
     """far more subscriber queues on one signal than a scenario holds (several hundred, beyond every size constant of the
     library): each receives every publication exactly once per kind, and the first subscribers are still served (oracle only)"""
@@ -1023,6 +1158,12 @@ def replay(case):
         return 0
     if cc.get("what") == "number-subscription-race":
         print(number_subscription_race_run(cc["spec"], dsched.scripted_chooser(["T%d" % i for i in cc["schedule"]], then=dsched.round_robin_chooser())))
+        return 0
+    if cc.get("what") == "subscribing-subscriber":
+        print(run_subscribing_subscriber(cc["spec"], dsched.scripted_chooser(cc["schedule"], then=dsched.round_robin_chooser())))
+        return 0
+    if cc.get("what") == "same-queue-subscribe-race":
+        print(same_queue_race_run(cc["spec"], dsched.scripted_chooser(["T%d" % i for i in cc["schedule"]], then=dsched.round_robin_chooser())))
         return 0
     if cc.get("what") == "subscribe-race":
         import small_corr
